@@ -29,6 +29,17 @@ pub proof fn lemma_sl_text_prefix(s: SS, q: Seq<Unifiable>, r: Seq<Unifiable>, n
     if n > 0 { lemma_sl_text_prefix(s, q, r, n - 1); }
 }
 
+// the text format_slist gives for a list: the text of its elements when the walk through the list ends (PROVED on the body of
+// format_slist, unit slist); whatever the function returns otherwise (a list that is its own tail: uninterpreted, T10); nothing
+// for a term that is not a list
+pub uninterp spec fn fmt_slist_other(l: Unifiable, ss: SS) -> Seq<char>;
+pub open spec fn fmt_slist(l: Unifiable, ss: SS) -> Seq<char> {
+    if l is SLinkedList {
+        if thru_first_def(ss, l, true) { sl_text(ss, thru_first_val(ss, l, true), thru_first_val(ss, l, true).len() as int) }
+        else { fmt_slist_other(l, ss) }
+    } else { Seq::<char>::empty() }
+}
+
 // R10 targets for `out += &format!("{}", t);` and `out += &format!(", {}", ground);`
 #[verifier::external_body]
 pub fn str_append_disp(out: &mut String, t: &Unifiable, comma: bool)
